@@ -53,6 +53,20 @@ def G(repo_needed=False):
         cats = sorted({c for c, _v in pool})
         _G["catnames"] = cats
         _G["catidx"] = [cats.index(c) for c, _v in pool]
+        kinds = ["null", "bool", "num", "str", "bytes", "arr", "obj"]
+
+        def kind(v):
+            if v is None:
+                return 0
+            if isinstance(v, bool):
+                return 1
+            if isinstance(v, (int, float, Dec, Big)):
+                return 2
+            if isinstance(v, Str):
+                return 3 if v.text else 4
+            return 5 if isinstance(v, list) else 6
+        _G["kindnames"] = kinds
+        _G["kindidx"] = [kind(v) for _c, v in pool]
     return _G
 
 
@@ -224,7 +238,7 @@ def task_nat(t):
     cases = [str(list(tp)) for tp in idxs]       # index tuples into the pool, which is sent once per request
     prog = p.text()
     c = mon(profile)
-    max_s = 20 + len(cases) / 1000.0
+    max_s = 60 + len(cases) / 500.0
     t0 = time.time()
     r = c.evalc(prog, cases, take=4, stream=[None, {"i": "1"}], chunk=64, timeout=timeout, death_budget=6, max_seconds=max_s, raw=True, pool=wires)
     dt = time.time() - t0
@@ -242,6 +256,8 @@ def task_nat(t):
         acc.covered.add(f"{p.name}/{p.arity}" if p.kind != "op" else p.label)
     ci = g["catidx"]
     cn = g["catnames"]
+    if p.slots >= 2:      # coarse value kinds for products of three and more values
+        ci, cn = g["kindidx"], g["kindnames"]
     classes = {(tuple([ci[i] for i in tp]), ch) for tp, ch in zip(idxs, r["codes"])}
     for cs, ch in classes:
         acc.distinct.add(f"n:{label}:{'/'.join(cn[k] for k in cs)}:{ch}")
@@ -271,7 +287,7 @@ def nat_tasks(progs, run, pool):
     p3 = sorted(rng.sample(t1, 20)) if quick else t1
     scale = 1.0 if quick else 2.0
     rand_n = run.size(10000, 400000)
-    prod_cap = run.size(60000, 2500000)
+    prod_cap = run.size(60000, 1500000)
     cap = 60000
     tasks = []
     sizes = collections.Counter()
@@ -772,6 +788,11 @@ def minimise(key, case):
                     if len(res) < len(w):
                         tup[j] = res
                         changed = True
+            if not changed and len(tup) > 6:
+                # the input itself is one long array
+                res = ddmin(tup, lambda xs: same(dict(case, input=xs)), budget=250)
+                if len(res) < len(tup):
+                    return dict(case, input=res)
             return dict(case, input=tup) if changed else None
     except Exception as e:  # minimisation is best effort
         return None
@@ -919,6 +940,7 @@ def main():
     broken = []
     slow = []
     cli_cand = []
+    first_sample = {}
     task_times = []
     profiles = collections.Counter()
 
@@ -932,7 +954,10 @@ def main():
         for d in out["distinct"]:
             distinct.add(d)
         for s in out["samples"]:
-            samples.add(s)
+            if s.get("workload") not in first_sample:
+                first_sample[s.get("workload")] = s
+            else:
+                samples.add(s)
         covered.update(out["covered"])
         notes.extend(out["notes"])
         for k, v in out["seen_keys"].items():
@@ -993,7 +1018,7 @@ def main():
                 "distinct = (workload, subject [callable + filter-argument shape | format + read path | mutation operator + error class], "
                 "category tuple of the arguments, outcome code); non-trivial = the case reached the code under test (compiled program executed, "
                 "rejected filter rendered, document fed to a reader, value fed to a writer)",
-        "samples": samples.items,
+        "samples": list(first_sample.values()) + samples.items[:6],
         "cases_per_workload": dict(by_wl),
         "native_tuple_cases_by_slots": {str(k): v for k, v in nat_sizes.items()},
         "outcome_codes": dict(codes),
